@@ -8,6 +8,7 @@ from ..effects import MUTATORS, stmt_calls
 from ..model import AnalysisError, call_name, dotted, is_self_attr, short
 from .common import (
     TABLE_ATTRS,
+    iter_base,
     cfg_of,
     method_table_writers,
     recv_name,
@@ -83,7 +84,7 @@ def _mixins_loops(m):
     return [
         n
         for n in ast.walk(m.node)
-        if isinstance(n, ast.For) and is_self_attr(n.iter, "mixins", selfname=rv) and isinstance(n.target, ast.Name)
+        if isinstance(n, ast.For) and is_self_attr(iter_base(n.iter), "mixins", selfname=rv) and isinstance(n.target, ast.Name)
     ]
 
 
@@ -259,7 +260,7 @@ def r3_linkback(ctx):
     loops = [
         n
         for n in ast.walk(upd.node)
-        if isinstance(n, ast.For) and is_self_attr(n.iter, "children", selfname=rv) and isinstance(n.target, ast.Name)
+        if isinstance(n, ast.For) and is_self_attr(iter_base(n.iter), "children", selfname=rv) and isinstance(n.target, ast.Name)
     ]
     ok = False
     loc = upd.loc()
@@ -451,7 +452,36 @@ def r5_every_mutator_rebuilds(ctx, rule_note=""):
         )
 
 
+def r6_writers_read_own_table_only(ctx):
+    """A method that writes the own method table must not read the effective (inherited) table: whatever it
+    copies from there becomes the child's own and survives the parent's later changes."""
+    oc = A.function_class(ctx.repo)
+    # the effective-table reader(s): properties / methods that merge mixins' tables with the own one
+    eff = set()
+    for m in oc.methods.values():
+        if _mixins_loops(m) and any(is_self_attr(x, "_defns", selfname=recv_name(m)) for x in ast.walk(m.node)) and any(isinstance(x, ast.Return) for x in ast.walk(m.node)):
+            eff.add(m.name)
+    ctx.require(eff, "effective-table reader not found")
+    seen = set()
+    for m, w, st in method_table_writers(ctx):
+        if w.attr != "_defns" or m.key in seen:
+            continue
+        seen.add(m.key)
+        ctx.touch(m)
+        rv = recv_name(m)
+        reads = [x for x in ast.walk(m.node) if is_self_attr(x, selfname=rv) and x.attr in eff]
+        ctx.ob(
+            f"{m.key}:reads-own-table-only",
+            m.loc(reads[0]) if reads else m.loc(),
+            f"{m.name}() decides and stores from the own table only (never from the inherited view `{'/'.join(sorted(eff))}`)",
+            not reads,
+            f"`{short(reads[0], 30) if reads else ''}` is read while writing the own table: an inherited method is copied into the child's own table (e.g. pushed down below an override), where it outlives the parent's unregistration and shadows later changes",
+        )
+    ctx.require(seen, "no writer of the own method table")
+
+
 RULES = [
+    ("C16.R6", "P1", r6_writers_read_own_table_only, "writers of the own table read only the own table"),
     ("C16.R1", "P1", r1_guard_dominates_mutation, "guard dominates mutation"),
     ("C16.R2", "P1", r2_lock_closure, "lock closure covers read closure"),
     ("C16.R3", "P1", r3_linkback, "linkback: one writer, readers"),
